@@ -148,6 +148,14 @@ def case(task):
                                     worst = max(worst, float(np.abs(
                                         ip - (i == j))[off_axis].max()))
                                 put(f'tetrad-orthonormal:{name}', worst, 1.0)
+                                # right-handed: eps_ijk e1^i e2^j e3^k = +1
+                                E3 = np.array([tetv[i][1:] for i in (1, 2, 3)])
+                                mv = np.moveaxis
+                                dE = np.linalg.det(mv(mv(E3, 0, -1), 0, -1))
+                                dg = np.linalg.det(mv(mv(g3, 0, -1), 0, -1))
+                                put(f'tetrad-orthonormal:handedness:{name}',
+                                    float(np.abs(dE * np.sqrt(dg) - 1)[
+                                        off_axis].max()), 1.0)
                             else:
                                 eta = np.diag([-1.0, 1, 1, 1])
                                 worst = 0.0
@@ -202,6 +210,17 @@ def case(task):
                                     float(np.abs(a - b).max()) / S
                                     for a, b in zip(psis, psis3)), 1.0)
                         # (f) invariants independent of the tetrad
+                        if desc[0] == 'lattice' and desc[1:3] == ('L0', 'S0'):
+                            # unit lapse, zero shift: the quasi-Kinnersley
+                            # frame is a spacetime tetrad too
+                            Iq, Jq, mq = states['quasi-Kinnersley']
+                            Io, Jo, _ = states['other']
+                            put('invariants:qK-vs-other:I', gc.err(
+                                Iq[mq], Io[mq], S ** 2),
+                                float(np.abs(np.imag(Io)).max()))
+                            put('invariants:qK-vs-other:J', gc.err(
+                                Jq[mq], Jo[mq], S ** 3),
+                                float(np.abs(np.imag(Jo)).max()))
                         (I0, J0, _), (I1, J1, _) = states['other'], states[
                             'other/tilted']
                         put('I:rest-vs-tilted', gc.err(I0, I1, S ** 2),
@@ -220,6 +239,9 @@ def case(task):
     return res
 
 
+# (invariants:qK-vs-other is judged by convergence: the numerical Weyl tensor
+# is trace-free only up to discretisation error, and that part is seen
+# differently by different tetrads)
 ROUNDOFF = ('E_u=C.u.u', 'B_u=*C.u.u', 'tetrad-orthonormal',
             'attribute-style')
 
